@@ -76,8 +76,14 @@ func c17Compare(rows1, rows2 []string, tag string) {
 			exts = []string{verifStr("ext")}
 		}
 		color.Output = w1
-		err1 = Output(w1, &verifReader{lines: rows1}, WithDryRun(), WithFileExtensions(exts))
-		err2 = wasm.Output(w2, &verifReader{lines: rows2}, wasm.WithDryRun(), wasm.WithFileExtensions(exts))
+		if verifFlag("dryrunWithEncode") {
+			// the dry run together with an encode option: the dry run decides what is printed, in both variants
+			err1 = Output(w1, &verifReader{lines: rows1}, WithDryRun(), WithFileExtensions(exts), WithEncodeJSON())
+			err2 = wasm.Output(w2, &verifReader{lines: rows2}, wasm.WithDryRun(), wasm.WithFileExtensions(exts), wasm.WithEncodeJSON())
+		} else {
+			err1 = Output(w1, &verifReader{lines: rows1}, WithDryRun(), WithFileExtensions(exts))
+			err2 = wasm.Output(w2, &verifReader{lines: rows2}, wasm.WithDryRun(), wasm.WithFileExtensions(exts))
+		}
 	}
 	cls := []string{"/text", "/json", "/dryrun"}[mode]
 	verifAssert((err1 == nil) == (err2 == nil), "C17.acc."+tag+cls)
